@@ -5,6 +5,7 @@ use rustybgp_table as table;
 use table::PeerRole;
 use std::net::{IpAddr, Ipv4Addr, Ipv6Addr};
 use super::*;
+use super::p_iter::*;
 verus! {
 
 #[verifier::external_type_specification]
@@ -187,5 +188,38 @@ pub assume_specification<T, E, F: FnOnce(T) -> bool + core::marker::Destruct>[ R
         o is Err ==> !r,
         o is Ok ==> call_ensures(f, (o->Ok_0,), r),
 ;
+
+
+// ---- helpers for constructs outside Verus's dialect (R11; assumed std semantics) --------------------------------
+/// the octets of an address (network order)
+pub uninterp spec fn ip4_octets(a: Ipv4Addr) -> Seq<u8>;
+pub broadcast axiom fn axiom_ip4_octets_len(a: Ipv4Addr)
+    ensures #[trigger] ip4_octets(a).len() == 4,
+;
+/// `u32::from(addr).to_be_bytes()`: the four octets of the address
+#[verifier::external_body]
+pub fn vx_ipv4_be_bytes(a: Ipv4Addr) -> (r: [u8; 4])
+    ensures r@ == ip4_octets(a),
+{ u32::from(a).to_be_bytes() }
+/// `[u8]::to_vec`
+#[verifier::external_body]
+pub fn vx_bytes_to_vec(s: &[u8]) -> (r: Vec<u8>)
+    ensures r@ == s@,
+{ s.to_vec() }
+/// some aligned 4-byte chunk of b equals pat
+pub open spec fn has_chunk4(b: Seq<u8>, pat: Seq<u8>) -> bool {
+    exists|k: int| #![trigger b.subrange(4 * k, 4 * k + 4)] 0 <= k && 4 * k + 4 <= b.len() && b.subrange(4 * k, 4 * k + 4) == pat
+}
+/// `b.chunks(4).any(|c| c == pat)` for a 4-byte pattern (a short last chunk never equals it)
+#[verifier::external_body]
+pub fn vx_chunks4_any_eq(b: &Vec<u8>, pat: &[u8; 4]) -> (r: bool)
+    ensures r == has_chunk4(b@, pat@),
+{ b.chunks(4).any(|c| c == pat) }
+/// `Arc::make_mut(a).retain(p)`: keeps exactly the elements for which p holds, in order (copy-on-write is invisible)
+#[verifier::external_body]
+pub fn vx_arc_vec_retain<T: Clone, P: Fn(&T) -> bool>(a: &mut std::sync::Arc<Vec<T>>, p: P)
+    requires forall|x: &T| call_requires(p, (x,)),
+    ensures forall|ps: spec_fn(T) -> bool| vx_pred1_agrees(p, ps) ==> final(a)@ == #[trigger] old(a)@.filter(ps),
+{ std::sync::Arc::make_mut(a).retain(|x| p(x)) }
 
 } // verus!
